@@ -109,8 +109,10 @@ class TQ(TP):
 
 @dataclass(frozen=True)
 class TW(ASTNode):  # two tuple child fields
-    first: tuple[ASTNode, ...] = ()
-    second: tuple[ASTNode, ...] = ()
+    # the two fields are named like parameters of the library's own functions (visit(node), replace(**changes)): a field
+    # name handed on as a keyword argument must not collide with them
+    node: tuple[ASTNode, ...] = ()
+    changes: tuple[ASTNode, ...] = ()
     tag: int = 0
     note: int = dataclasses.field(default=0, compare=False)
 
@@ -123,7 +125,7 @@ U = Universe("c09", [
 ])
 # the shaped family: a class with two tuple fields (exhaustive enumeration above keeps to the 4 classes)
 U2 = Universe("c09-shaped", U.classes and [U.classes[c] for c in ("TL", "TS", "TP", "TQ")] + [
-    C("TW", TW, [F("first", VAR, maxlen=3), F("second", VAR, maxlen=3), F("tag", PROP, alphabet=(0,))])])
+    C("TW", TW, [F("node", VAR, maxlen=3), F("changes", VAR, maxlen=3), F("tag", PROP, alphabet=(0,))])])
 TCLS = ["TL", "TS", "TP", "TQ"]
 # "copy" returns a distinct node that is == to the one it stands for, "annotate" rewrites a property that does not take
 # part in comparison: both are replacements (new objects that must be substituted and make every ancestor new)
@@ -412,7 +414,7 @@ def shaped_trees():
     L, S = ("TL", (("v", 0),)), ("TS", (("v", 0),))
 
     def W(first, second):
-        return ("TW", (("first", tuple(first)), ("second", tuple(second)), ("tag", 0)))
+        return ("TW", (("node", tuple(first)), ("changes", tuple(second)), ("tag", 0)))
 
     def P(one, items):
         return ("TP", (("one", one), ("items", tuple(items)), ("tag", 0)))
